@@ -1,5 +1,33 @@
-(* C06 -- placeholder until Proofs/C06.v lands. *)
-From GV Require Import Base.Prelude Model.C06.
-Theorem C06_sq_length : forall xs, length (sq xs) = length xs.
-Proof. intros. unfold sq. apply map_length. Qed.
-Print Assumptions C06_sq_length.
+(* C06 -- property theorems only.  Series are integer numerators of unwrapped Cartesian
+   components; the FFT is modelled by the autocorrelation sum it computes (tie: 1e-9). *)
+From GV Require Import Base.Prelude Model.C06 Proofs.C06.
+
+(* the S1 - 2 S2 decomposition used by the code equals the definition: the average over all
+   time origins of the squared displacement at that lag (numerators; the tie divides by T - tau) *)
+Theorem C06_msd_decomp : forall xs tau, (tau < length xs)%nat -> msd_impl_num xs tau = msd_num xs tau.
+Proof. exact msd_decomp. Qed.
+Print Assumptions C06_msd_decomp.
+Theorem C06_msd3_decomp : forall c tau, (forall xs, In xs c -> (tau < length xs)%nat) -> msd3_impl_num c tau = msd3_num c tau.
+Proof. exact msd3_decomp. Qed.
+Print Assumptions C06_msd3_decomp.
+Theorem C06_s1_is_sum : forall xs tau, (tau < length xs)%nat ->
+  s1_num xs tau = zsum (lagged (fun a b => a * a + b * b) xs (skipn tau xs)).
+Proof. exact s1_is_sum. Qed.
+Print Assumptions C06_s1_is_sum.
+Theorem C06_msd_lag0 : forall xs, msd_num xs 0 = 0.
+Proof. exact msd_lag0. Qed.
+Print Assumptions C06_msd_lag0.
+Theorem C06_msd_nonneg : forall xs tau, 0 <= msd_num xs tau.
+Proof. exact msd_nonneg. Qed.
+Print Assumptions C06_msd_nonneg.
+(* the largest lag is the squared final displacement, which the tracer diffusivity uses *)
+Theorem C06_msd_last_lag : forall x0 r,
+  msd_num (x0 :: r) (length (x0 :: r) - 1) = (last (x0 :: r) x0 - x0) * (last (x0 :: r) x0 - x0).
+Proof. exact msd_last_lag. Qed.
+Print Assumptions C06_msd_last_lag.
+Theorem C06_msd_translate : forall xs k tau, msd_num (map (fun x => x + k) xs) tau = msd_num xs tau.
+Proof. exact msd_translate. Qed.
+Print Assumptions C06_msd_translate.
+Theorem C06_msd_scale : forall xs k tau, msd_num (map (fun x => k * x) xs) tau = k * k * msd_num xs tau.
+Proof. exact msd_scale. Qed.
+Print Assumptions C06_msd_scale.
